@@ -85,7 +85,11 @@ impl<'a> Parser<'a> {
         }
         let k = self.prog.consts.len() as KId;
         self.prog.consts.push(s.to_vec());
-        let isv = s.len() >= 2 && s[0] == b'V' && s[1..].iter().all(|c| c.is_ascii_digit());
+        // a compiler-made variable: today `V<digits>`; any short alphabetic prefix followed by digits counts, so that a
+        // compiler that names its variables differently is observed just the same (`utf8` is Lua's own)
+        let letters = s.iter().take_while(|c| c.is_ascii_alphabetic() || **c == b'_').count();
+        let isv = (1..=3).contains(&letters) && s[0].is_ascii_alphabetic() && s.len() > letters
+            && s[letters..].iter().all(|c| c.is_ascii_digit()) && s != b"utf8";
         self.prog.is_vname.push(isv);
         self.kmap.insert(s.to_vec(), k);
         k
